@@ -25,7 +25,25 @@ Proof. reflexivity. Qed.
 Section U.
 Variable G : fenv.
 Definition tails (cls m : string) : option oracle := match methods G cls m with Some (CTail o) => Some o | _ => None end.
-Lemma exec_S f ss ρ w : exec G (S f) ss ρ w = run_stmts (exec_stmt tails (eval G f) (evals_with (eval G f)) (exec G f) f) ss ρ w.
+(* running a method body for its effect on the receiver (statement-level x.m(args)) *)
+Definition runms (f : nat) (cls m : string) : option (val -> list val -> world -> res (val * world)) :=
+  match methods G cls m with
+  | Some (CFun fd) =>
+      if f_static fd then None else
+      Some (fun self args w =>
+              do b <- bind_params (f_params fd) (self :: args) [] (fun de => do r <- eval G f de [] w; Ok (fst r));
+              do ρ0 <- match snd b, f_kwarg fd with
+                       | [], None => Ok (fst b)
+                       | rest, Some k => Ok ((fst b ++ [(k, kw_dict rest)])%list)
+                       | _ :: _, None => Exc "TypeError" end;
+              do ow <- exec G f (f_body fd) ρ0 w;
+              match fst ow with
+              | ONormal ρ' => Ok (match lookup "self" ρ' with Some o => o | None => self end, snd ow)
+              | OReturn _ => Ok (self, snd ow)
+              | OTail o targs tkws => do r <- o targs tkws (snd ow); Ok (self, snd r)
+              end)
+  | _ => None end.
+Lemma exec_S f ss ρ w : exec G (S f) ss ρ w = run_stmts (exec_stmt tails (runms f) (eval G f) (evals_with (eval G f)) (exec G f) f) ss ρ w.
 Proof. reflexivity. Qed.
 Lemma call_fun f fd self args kws w :
   call G (S f) (CFun fd) self args kws w =
